@@ -180,7 +180,8 @@ func planC16(c *Ctx, run int64) *Plan {
 				}
 			}
 		}
-		if stampMode == 2 {
+		if stampMode == 2 || (stampMode != 0 && Chance(r, 0.3)) {
+			// stamps passed as options — also on a source whose header already carries them
 			op.L = append(op.L, "stamps")
 			for _, s := range def.Stamps {
 				op.L = append(op.L, "stamp="+s+"=opt-value-of-"+s)
